@@ -65,13 +65,14 @@ def open_devs(backend, part):
     return [d for d in DEVIATIONS.get(backend, []) if part.is_open(d)]
 
 
-def _has_full_join(hist):
+def _has_full_join(hist, renamed_keys=False):
     for st in hist["steps"]:
         if st["op"] == "natural_join":
             if st["jointype"].upper() in ("FULL", "OUTER"):
-                return True
+                if not renamed_keys or any(isinstance(o, (list, tuple)) and o[0] != o[1] for o in (st.get("on") or [])):
+                    return True
         b = st.get("b")
-        if isinstance(b, dict) and "table" in b and _has_full_join(b):
+        if isinstance(b, dict) and "table" in b and _has_full_join(b, renamed_keys):
             return True
     return False
 
@@ -92,6 +93,8 @@ def raise_finding(backend, res, hist, data):
     if backend == "pandas" and res[1] == "ValueError" and res[2].startswith("Shape of passed values"):
         if _has_full_join(hist) and _has_null_key(data):
             return "pandas.outer_merge_null_key_raises"
+    if backend == "sqlite" and res[1] == "AssertionError" and _has_full_join(hist, renamed_keys=True):
+        return "sqlite.full_join_needs_same_key_names"
     return None
 
 
